@@ -580,6 +580,10 @@ class Interp:
                     cond = self.eval(s.test, fr)
                     c.assume(snot(cond) if isinstance(cond, SBool) else (not cond))
             c.where = where0
+            if getattr(rule, "skip_body", False) and s.orelse and any(isinstance(x, ast.Break) for b_ in s.body for x in ast.walk(b_)):
+                # the havoc of a skip_body rule also stands for the exits through break: those skip the else clause
+                if self.truth(SBool(sym.z3.Bool(c.fresh_name(f"loop{ordinal}.left_by_break")))):
+                    return
             self.exec_block(s.orelse, fr)
             return
         if getattr(rule, "skip_body", False):
